@@ -78,24 +78,15 @@ theorem rowRedLoop_id (fuel : Nat) (m : XZ) (k : Nat) (hk : k < m.n) (hx : XId m
       have hk' : k + 1 < (m.elimBelow k [k]).n := by rw [a1.1]; omega
       exact a1.trans (ih (m.elimBelow k [k]) (k + 1) hk' (xid_agree a1 hx))
 
-theorem posLoop_id (x : Adj) (n : Nat) (hx : ∀ i j, i < n → j < n → x i j = decide (i = j)) (fuel k : Nat) :
-    posLoop x n fuel k k [] = [] := by
-  induction fuel generalizing k with
+theorem posLoop_id (x : Adj) (n : Nat) (hx : ∀ i j, i < n → j < n → x i j = decide (i = j)) (k : Nat) (hk : k ≤ n) :
+    posLoop x n k = (k, []) := by
+  induction k with
   | zero => rfl
-  | succ fuel ih =>
-    unfold posLoop
-    by_cases hc : k < n ∧ k < n
-    · rw [if_pos hc]
-      by_cases hr : k + 1 < n
-      · rw [if_pos hr]
-        have e0 : x (k + 1) k = false := by rw [hx (k + 1) k hr hc.1]; simp
-        simp only [e0, Bool.false_eq_true, if_false]
-        rw [if_pos ⟨hr, hr⟩]
-        have e1 : x (k + 1) (k + 1) = true := by rw [hx (k + 1) (k + 1) hr hr]; simp
-        rw [if_pos e1]
-        exact ih (k + 1)
-      · rw [if_neg hr]
-    · rw [if_neg hc]
+  | succ k ih =>
+    rw [posLoop_succ, ih (by omega)]
+    unfold posStep
+    have e1 : x k k = true := by rw [hx k k (by omega) (by omega)]; simp
+    rw [if_pos ⟨by show k < n; omega, e1⟩]
 
 end S2G
 
@@ -120,7 +111,7 @@ theorem graphFinder_graph (n : Nat) (hn : 0 < n) (A : Adj) (hsym : ∀ i j, i < 
   have hx1 : XId m1 := xid_agree a01 hm0x
   have hpos : positionFinder m0.n m1.x = [] := by
     unfold positionFinder
-    exact posLoop_id m1.x m0.n (fun i j hi hj => hx1 i j (a01.1 ▸ hi) (a01.1 ▸ hj)) m0.n 0
+    rw [posLoop_id m1.x m0.n (fun i j hi hj => hx1 i j (a01.1 ▸ hi) (a01.1 ▸ hj)) m0.n (Nat.le_refl _)]
   rw [hpos]
   generalize hm2 : (m1.hadamardTransform []).norm = m2
   have a12 : XZ.Agree m1 m2 := by
